@@ -86,6 +86,8 @@ def collect(kind, flt=""):
             base = os.path.basename(p)
             if flt in base:
                 props = base.split("__")[0].split("+")
+                if props == ["ALL"]:
+                    props = list(ALL)
                 items.append((kind, base, p, props, props))
     elif kind == "seeded":
         for d in sorted(glob.glob(os.path.join(HERE, "seeded", "*"))):
